@@ -71,6 +71,9 @@ pub enum GenerateError {
     /// Metal does not support a 64-bit floating point type
     UnsupportedDouble,
 
+    /// Struct templates can not be exported yet
+    UnsupportedStructTemplate,
+
     /// Metal does not allow precise as a type modifier - we need to propagate to all operations manually
     UnsupportedPrecise,
 
@@ -523,7 +526,7 @@ fn generate_root_definition(
     let namespace = match decl {
         ir::RootDefinition::Struct(id) => module.struct_registry[id.0 as usize].namespace,
         ir::RootDefinition::StructTemplate(_) => {
-            todo!("RootDefinition::StructTemplate")
+            return Err(GenerateError::UnsupportedStructTemplate);
         }
         ir::RootDefinition::Enum(id) => module.enum_registry.get_enum_definition(*id).namespace,
         ir::RootDefinition::ConstantBuffer(id) => module.cbuffer_registry[id.0 as usize].namespace,
@@ -543,7 +546,7 @@ fn generate_root_definition(
             Vec::from([ast::RootDefinition::Struct(def)])
         }
         ir::RootDefinition::StructTemplate(_) => {
-            todo!("RootDefinition::StructTemplate")
+            return Err(GenerateError::UnsupportedStructTemplate);
         }
         ir::RootDefinition::Enum(id) => {
             let def = generate_enum(*id, context)?;
